@@ -341,7 +341,7 @@ SEEDS = [
     Seed("a getter collects copies of the children under a scratch element", "neutral", _EL,
          "    def text_recursive(self) -> str:\n        return self.inner_text + (self.tail or \"\")",
          "    def text_recursive(self) -> str:\n        probe = Element.from_tag(\"text:span\")\n        for child in self.children:\n            probe.append(child.clone)\n        return self.inner_text + (self.tail or \"\")"),
-    Seed("ranged column traversal clears the repeat of the live column group", "fault", _T, '                repeated = juska - before\n                before = juska\n                for _i in range(repeated or 1):\n                    if x <= end:\n                        column = column.clone\n                        column.x = x\n                        if repeated > 1 or (x == start and start > 0):', '                repeated = juska - before\n                before = juska\n                if x == start and start > 0:\n                    column.repeated = None\n                for _i in range(repeated or 1):\n                    if x <= end:\n                        column = column.clone\n                        column.x = x\n                        if repeated > 1:', "R15a"),
+    Seed("ranged column traversal clears the repeat of the live column group", "fault", _T, '                repeated = juska - before\n                before = juska\n                for _i in range(repeated or 1):\n                    if x <= end:\n                        copy = column.clone\n                        copy.x = x\n                        if repeated > 1 or (x == start and start > 0):', '                repeated = juska - before\n                before = juska\n                if x == start and start > 0:\n                    column.repeated = None\n                for _i in range(repeated or 1):\n                    if x <= end:\n                        copy = column.clone\n                        copy.x = x\n                        if repeated > 1:', "R15a"),
     Seed("wrapping a named range rewrites its attributes", "fault", _T,
          "        crange = crange.replace(\".\", \"\")\n        self._set_range(crange)", "        crange = crange.replace(\".\", \"\")\n        self.set_range(crange)", "R15a"),
     Seed("wrapping a header normalises its level", "fault", "src/odfdo/header.py",
